@@ -83,6 +83,13 @@ def formSrcOnly : List String := ["Unknown form type", "1", "true", "0", "", "-1
 
 /-- the explicit per-class exceptions (reviewed by hand; everything not listed must match exactly) -/
 def ignoreTable : List (String × Ignore) := [
+  -- QXmppPubSubSubscription::parse / toXml serve three namespaces; each schema describes one of them
+  ("PubSubSubscription", { srcOnly := ["expiry"], nsSrcOnly := ["http://jabber.org/protocol/pubsub#event"] }),
+  ("PubSubSubscriptionEvent", { srcOnly := ["subscribe-options", "required"], nsSrcOnly := ["http://jabber.org/protocol/pubsub"] }),
+  -- (…#owner is recognised as "neither pubsub nor event": its constant does not occur in the bodies)
+  ("PubSubSubscriptionOwner", { srcOnly := ["node", "subid", "expiry", "subscribe-options", "required"],
+                                nsSchemaOnly := ["http://jabber.org/protocol/pubsub#owner"],
+                                nsSrcOnly := ["http://jabber.org/protocol/pubsub", "http://jabber.org/protocol/pubsub#event"] }),
   -- <holder/> is the holder element of the harness
   ("DataForm", { schemaOnly := ["holder"], srcOnly := formSrcOnly, nsSrcOnly := ["urn:xmpp:media-element"] }),
   ("MucOwnerIq", { srcOnly := formSrcOnly, nsSrcOnly := ["urn:xmpp:media-element"] }),
